@@ -4,7 +4,9 @@
    2. [nf_equiv]: same result (fall-through / branch / halt / stuck / out of fuel) and same final
       state, for every state and every fuel; corollaries;
    3. [flat_nf_rt]: the tagged list [nf_list] IS the flattening of the tree-level normal form;
-   4. a toy machine showing [eval] is not vacuous. *)
+   4. a toy machine showing [eval] is not vacuous;
+   5. [nf_equiv_on] / [nf_equiv_renamed_on]: the same with the hypotheses on the operators asked only for the
+      operators that occur in the body ([ops_of]). *)
 From Coq Require Import List NArith Bool Lia. Import ListNotations.
 From WV Require Import Gen.Ops Model.Common Model.IR Model.ParseFn Model.ParseSpec Model.EmitFn
   Model.BodySpec Model.Sem.
@@ -517,6 +519,196 @@ Module Toy.
   Qed.
 End Toy.
 
+(* ================================================================== 5. the equivalence, restricted to the operators that OCCUR *)
+(* all plain operators of a tree / forest, recursively - also those in dead code *)
+Fixpoint ops_of_t (t : rt) {struct t} : list wop :=
+  let ol := fix ol (l : list rt) {struct l} : list wop :=
+      match l with [] => [] | x :: l' => ops_of_t x ++ ol l' end in
+  match t with
+  | RPlain o _ => [o]
+  | RBlock _ b _ _ => ol b
+  | RLoop _ b _ _ => ol b
+  | RIf _ th None _ _ => ol th
+  | RIf _ th (Some (_, eb)) _ _ => ol th ++ ol eb
+  | _ => []
+  end.
+Fixpoint ops_of (l : list rt) : list wop :=
+  match l with [] => [] | x :: l' => ops_of_t x ++ ops_of l' end.
+
+Definition ops_inner :=
+  fix ol (l : list rt) {struct l} : list wop :=
+    match l with [] => [] | x :: l' => ops_of_t x ++ ol l' end.
+Lemma ops_inner_eq l : ops_inner l = ops_of l.
+Proof. induction l as [|t l IH]; [reflexivity|]. cbn [ops_inner ops_of]. fold ops_inner. now rewrite IH. Qed.
+Lemma ops_of_block bt b l e : ops_of_t (RBlock bt b l e) = ops_of b.
+Proof. rewrite <- ops_inner_eq. reflexivity. Qed.
+Lemma ops_of_loop bt b l e : ops_of_t (RLoop bt b l e) = ops_of b.
+Proof. rewrite <- ops_inner_eq. reflexivity. Qed.
+Lemma ops_of_if_none bt th l e : ops_of_t (RIf bt th None l e) = ops_of th.
+Proof. rewrite <- ops_inner_eq. reflexivity. Qed.
+Lemma ops_of_if_some bt th le eb l e : ops_of_t (RIf bt th (Some (le, eb)) l e) = ops_of th ++ ops_of eb.
+Proof. rewrite <- !ops_inner_eq. reflexivity. Qed.
+Lemma ops_of_app a b : ops_of (a ++ b) = ops_of a ++ ops_of b.
+Proof. induction a as [|t a IH]; [reflexivity|]. cbn [app ops_of]. now rewrite IH, app_assoc. Qed.
+
+Section MachineOn.
+  Variable S : Type.
+  Variable halt : Type.
+  Variable pop_cond : S -> option (bool * S).
+  Variable pop_index : S -> option (N * S).
+  Variable unwind : N -> S -> S.
+  Variable leave : S -> S.
+
+  Section EquivOn.
+    Variable sem_in sem_out : wins -> S -> step S halt.
+    Variable enter_in enter_out : blockty -> S -> S.
+    Variable arity_in arity_out loop_arity_in loop_arity_out : blockty -> N.
+    (* the operators the two hypotheses are asked for *)
+    Variable P : wop -> Prop.
+    Hypothesis H_op : forall o, P o -> forall s, sem_out (WOp o) s = sem_in (WOp o) s.
+    Hypothesis H_enter : forall bt s, enter_out bt s = enter_in bt s.
+    Hypothesis H_arity : forall bt, arity_out bt = arity_in bt.
+    Hypothesis H_loop_arity : forall bt, loop_arity_out bt = loop_arity_in bt.
+    Hypothesis H_term : forall o, P o -> marks_unreachable o = true -> forall s, exists h s', sem_in (WOp o) s = Halt h s'.
+
+    Notation evt_in := (evt S halt pop_cond pop_index unwind enter_in leave sem_in arity_in loop_arity_in).
+    Notation evl_in := (evl S halt pop_cond pop_index unwind enter_in leave sem_in arity_in loop_arity_in).
+    Notation evt_out := (evt S halt pop_cond pop_index unwind enter_out leave sem_out arity_out loop_arity_out).
+    Notation evl_out := (evl S halt pop_cond pop_index unwind enter_out leave sem_out arity_out loop_arity_out).
+    Notation eval_t_in := (eval_t S halt pop_cond pop_index unwind enter_in leave sem_in arity_in loop_arity_in).
+    Notation eval_t_out := (eval_t S halt pop_cond pop_index unwind enter_out leave sem_out arity_out loop_arity_out).
+    Notation eval_in := (eval S halt pop_cond pop_index unwind enter_in leave sem_in arity_in loop_arity_in).
+    Notation eval_out := (eval S halt pop_cond pop_index unwind enter_out leave sem_out arity_out loop_arity_out).
+    Notation rr_of_in := (rerun_of S halt pop_cond pop_index unwind enter_in leave sem_in arity_in loop_arity_in).
+    Notation rr_of_out := (rerun_of S halt pop_cond pop_index unwind enter_out leave sem_out arity_out loop_arity_out).
+
+    Definition OpsT (t : rt) : Prop := forall o, In o (ops_of_t t) -> P o.
+    Definition OpsL (l : list rt) : Prop := forall o, In o (ops_of l) -> P o.
+    Lemma OpsL_cons t l : OpsL (t :: l) -> OpsT t /\ OpsL l.
+    Proof. intros H. split; intros o Ho; apply H; cbn [ops_of]; apply in_or_app; auto. Qed.
+    Lemma OpsL_app a b : OpsL (a ++ b) -> OpsL a /\ OpsL b.
+    Proof. unfold OpsL. rewrite ops_of_app. intros H. split; intros o Ho; apply H, in_or_app; auto. Qed.
+
+    (* a tree (with its operators in P) after which nf marks the sequence unreachable never falls through *)
+    Lemma term_nofall_on rr t : OpsT t -> snd (nf_rt false t) = true -> forall s s', evt_in rr t s <> Fall s'.
+    Proof.
+      destruct t as [o l|l|d l|d l|ds d l|bt body l e|bt body l e|bt th [[le eb]|] l e]; intros HP H s s' E;
+        first [ rewrite nf_rt_block in H | rewrite nf_rt_loop in H | rewrite nf_rt_if_some in H
+              | rewrite nf_rt_if_none in H | idtac ];
+        cbn [nf_rt snd orb] in H; try discriminate H.
+      - assert (Po : P o) by (apply HP; cbn; auto).
+        destruct (H_term o Po H s) as (h & s1 & Hs). cbn [Sem.evt] in E. rewrite Hs in E. discriminate E.
+      - cbn [Sem.evt] in E. discriminate E.
+      - cbn [Sem.evt] in E. destruct (pop_index s) as [[i s1]|]; discriminate E.
+    Qed.
+
+    Section RerunOn.
+      Variable rr_in rr_out : rt -> S -> res S halt.
+      Hypothesis H_rr : forall bt b l e s, OpsL b ->
+        rr_out (RLoop bt (fst (nf_rt_list false b)) l e) s = rr_in (RLoop bt b l e) s.
+
+      Definition Et_on (t : rt) : Prop := OpsT t -> forall s, evl_out rr_out (fst (nf_rt false t)) s = evt_in rr_in t s.
+      Definition El_on (l : list rt) : Prop := OpsL l -> forall s, evl_out rr_out (fst (nf_rt_list false l)) s = evl_in rr_in l s.
+
+      Lemma El_on_of_Forall l : Forall Et_on l -> El_on l.
+      Proof.
+        induction 1 as [|t l Ht Hl IH]; intros HP s; [reflexivity|].
+        apply OpsL_cons in HP. destruct HP as [HPt HPl].
+        rewrite nf_rt_list_cons. cbn [fst]. rewrite evl_app, (Ht HPt s), evl_cons.
+        destruct (snd (nf_rt false t)) eqn:Hu.
+        - rewrite nf_rt_list_dead. cbn [fst].
+          destruct (evt_in rr_in t s) eqn:E; try reflexivity.
+          exfalso. exact (term_nofall_on rr_in t HPt Hu _ _ E).
+        - destruct (evt_in rr_in t s); try reflexivity. apply IH, HPl.
+      Qed.
+
+      Lemma Et_on_all : forall t, Et_on t.
+      Proof.
+        induction t as [o l|l|d l|d l|ds d l|bt body l e HF|bt body l e HF|bt th el l e HFt HFe] using rt_ind';
+          intros HP s.
+        - cbn [nf_rt fst]. rewrite evl_single. cbn [Sem.evt]. rewrite H_op; [reflexivity|]. apply HP. cbn. auto.
+        - reflexivity.
+        - cbn [nf_rt fst]. rewrite evl_single. reflexivity.
+        - cbn [nf_rt fst]. rewrite evl_single. reflexivity.
+        - cbn [nf_rt fst]. rewrite evl_single. reflexivity.
+        - unfold OpsT in HP. rewrite ops_of_block in HP.
+          rewrite nf_rt_block. cbn [fst keepr]. rewrite evl_single, !evt_block.
+          rewrite H_enter, (El_on_of_Forall _ HF HP _). apply close_ext. intros s'. now rewrite H_arity.
+        - unfold OpsT in HP. rewrite ops_of_loop in HP.
+          rewrite nf_rt_loop. cbn [fst keepr]. rewrite evl_single, !evt_loop.
+          rewrite H_enter, (El_on_of_Forall _ HF HP _). apply close_ext. intros s'.
+          rewrite H_loop_arity. apply H_rr. exact HP.
+        - destruct el as [[le eb]|].
+          + unfold OpsT in HP. rewrite ops_of_if_some in HP.
+            assert (HPt : OpsL th) by (intros o Ho; apply HP, in_or_app; auto).
+            assert (HPe : OpsL eb) by (intros o Ho; apply HP, in_or_app; auto).
+            rewrite nf_rt_if_some. cbn [fst keepr]. rewrite evl_single, !evt_if.
+            destruct (pop_cond s) as [[[|] s1]|]; [| |reflexivity].
+            * rewrite H_enter, (El_on_of_Forall _ HFt HPt _). apply close_ext. intros s'. now rewrite H_arity.
+            * cbn [optP snd] in HFe. rewrite H_enter, (El_on_of_Forall _ HFe HPe _).
+              apply close_ext. intros s'. now rewrite H_arity.
+          + unfold OpsT in HP. rewrite ops_of_if_none in HP.
+            rewrite nf_rt_if_none. cbn [fst keepr]. rewrite evl_single, !evt_if.
+            destruct (pop_cond s) as [[[|] s1]|]; [| |reflexivity].
+            * rewrite H_enter, (El_on_of_Forall _ HFt HP _). apply close_ext. intros s'. now rewrite H_arity.
+            * cbn [Sem.evl]. rewrite H_enter. apply close_ext. intros s'. now rewrite H_arity.
+      Qed.
+      Lemma El_on_all l : El_on l.
+      Proof. apply El_on_of_Forall, Forall_forall. intros t _. apply Et_on_all. Qed.
+    End RerunOn.
+
+    Lemma rerun_equiv_on fuel : forall bt b l e s, OpsL b ->
+      rr_of_out fuel (RLoop bt (fst (nf_rt_list false b)) l e) s = rr_of_in fuel (RLoop bt b l e) s.
+    Proof.
+      induction fuel as [|f IH]; intros bt b l e s HP; [reflexivity|].
+      cbn [rerun_of]. rewrite eval_t_evt_in, eval_t_evt_out.
+      assert (HPt : OpsT (RLoop bt b l e)) by (unfold OpsT; rewrite ops_of_loop; exact HP).
+      pose proof (Et_on_all _ _ IH (RLoop bt b l e) HPt s) as H.
+      rewrite nf_rt_loop in H. cbn [fst keepr] in H. rewrite evl_single in H. exact H.
+    Qed.
+
+    (* THE EQUIVALENCE for a body all of whose operators are in [P] *)
+    Theorem nf_equiv_P : forall fuel l s, OpsL l ->
+      eval_out fuel (fst (nf_rt_list false l)) s = eval_in fuel l s.
+    Proof. intros fuel l s HP. unfold eval. apply El_on_all; [apply rerun_equiv_on|exact HP]. Qed.
+  End EquivOn.
+
+  (* the hypotheses on the operators asked only for the operators of THIS body *)
+  Theorem nf_equiv_on : forall (sem_in sem_out : wins -> S -> step S halt) (enter_in enter_out : blockty -> S -> S)
+      (arity_in arity_out loop_arity_in loop_arity_out : blockty -> N) (l : list rt),
+    (forall o, In o (ops_of l) -> forall s, sem_out (WOp o) s = sem_in (WOp o) s) ->
+    (forall bt s, enter_out bt s = enter_in bt s) ->
+    (forall bt, arity_out bt = arity_in bt) ->
+    (forall bt, loop_arity_out bt = loop_arity_in bt) ->
+    (forall o, In o (ops_of l) -> marks_unreachable o = true -> forall s, exists h s', sem_in (WOp o) s = Halt h s') ->
+    forall fuel s,
+      eval S halt pop_cond pop_index unwind enter_out leave sem_out arity_out loop_arity_out fuel (fst (nf_rt_list false l)) s
+      = eval S halt pop_cond pop_index unwind enter_in leave sem_in arity_in loop_arity_in fuel l s.
+  Proof.
+    intros sem_in sem_out enter_in enter_out arity_in arity_out loop_arity_in loop_arity_out l H1 H2 H3 H4 H5 fuel s.
+    apply (nf_equiv_P sem_in sem_out enter_in enter_out arity_in arity_out loop_arity_in loop_arity_out
+             (fun o => In o (ops_of l))); try assumption; try (intros o Ho; exact Ho).
+  Qed.
+
+  Theorem nf_equiv_renamed_on : forall (cx : pctx) (ecx : ectx) (sem_in sem_out' : wins -> S -> step S halt)
+      (enter_in enter_out' : blockty -> S -> S)
+      (arity_in arity_out' loop_arity_in loop_arity_out' : blockty -> N) (l : list rt),
+    (forall o, In o (ops_of l) -> forall s, sem_out' (nf_op cx ecx o) s = sem_in (WOp o) s) ->
+    (forall bt s, enter_out' (nf_bt cx ecx bt) s = enter_in bt s) ->
+    (forall bt, arity_out' (nf_bt cx ecx bt) = arity_in bt) ->
+    (forall bt, loop_arity_out' (nf_bt cx ecx bt) = loop_arity_in bt) ->
+    (forall o, In o (ops_of l) -> marks_unreachable o = true -> forall s, exists h s', sem_in (WOp o) s = Halt h s') ->
+    forall fuel s,
+      eval S halt pop_cond pop_index unwind (fun bt => enter_out' (nf_bt cx ecx bt)) leave (sem_ren S halt cx ecx sem_out')
+           (fun bt => arity_out' (nf_bt cx ecx bt)) (fun bt => loop_arity_out' (nf_bt cx ecx bt))
+           fuel (fst (nf_rt_list false l)) s
+      = eval S halt pop_cond pop_index unwind enter_in leave sem_in arity_in loop_arity_in fuel l s.
+  Proof.
+    intros cx ecx sem_in sem_out' enter_in enter_out' arity_in arity_out' loop_arity_in loop_arity_out' l H1 H2 H3 H4 H5 fuel s.
+    apply nf_equiv_on; try assumption.
+  Qed.
+End MachineOn.
+
 Print Assumptions nf_equiv.
 Print Assumptions nf_equiv_renamed.
 Print Assumptions nf_drops_only_dead.
@@ -524,3 +716,5 @@ Print Assumptions else_synthesis.
 Print Assumptions flat_nf_rt.
 Print Assumptions roundtrip_body_sem.
 Print Assumptions Toy.toy_equiv.
+Print Assumptions nf_equiv_on.
+Print Assumptions nf_equiv_renamed_on.
